@@ -110,6 +110,31 @@ func runC15(c *Ctx) {
 					for j := range data {
 						data[j] = r.U8()
 					}
+					if r.Intn(3) == 0 && ln >= n {
+						// the block is a view of the same memory (moving bytes up or down
+						// inside it, possibly overlapping): Put must store the bytes the
+						// caller passed, as they were at the time of the call
+						src := start + r.Intn(2*n+1) - n
+						if src < 0 {
+							src = 0
+						}
+						if src+n > ln {
+							src = ln - n
+						}
+						view := dm[src : src+n]
+						copy(data, view) // what the model expects to be stored
+						trace = append(trace, c15op{"Put(view of self)", start, src, n})
+						ret := dm.Put(uint16(start), view...)
+						if len(ret) != ln {
+							fail("Put returned a different slice")
+							return
+						}
+						for j, v := range data {
+							model[uint16(start+j)] = v
+						}
+						lops++
+						continue
+					}
 					trace = append(trace, c15op{"Put", start, int(data[0]), n})
 					ret := dm.Put(uint16(start), data...)
 					if len(ret) != ln {
@@ -394,6 +419,7 @@ func runC15(c *Ctx) {
 	c.R.Set("panics", panics)
 	c.R.Set("distinct_nontrivial", distinct.N())
 	c.R.Set("exhaustive", false)
-	c.R.Set("rule", "random operation sequences (1..200 ops) on DumbMemory (lengths 0,1,2,255,256,257,32768,65535,65536 and random; Put blocks inside the slice incl. ending exactly at its top), DumbIO (lengths 0..256) and MapMemory (Set/Get/Put incl. wrap past FFFF/Clone-then-mutate/Clear/Equal against identical, differing-value, missing-key, same-size-different-key-set and non-MapMemory arguments, values 00 and C7 favoured), each op checked against a map model and each sequence followed by a full sweep of all 65536 addresses / 256 ports; distinct = distinct (type, length, sequence) tuples, every sequence performs at least one operation")
+	c.R.Set("rule", "random operation sequences (1..200 ops) on DumbMemory (lengths 0,1,2,255,256,257,32768,65535,65536 and random; Put blocks inside the slice incl. ending exactly at its top and blocks that are overlapping views of the same memory), DumbIO (lengths 0..256) and MapMemory (Set/Get/Put incl. wrap past FFFF/Clone-then-mutate/Clear/Equal against identical, differing-value, missing-key, same-size-different-key-set and non-MapMemory arguments, values 00 and C7 favoured), each op checked against a map model and each sequence followed by a full sweep of all 65536 addresses / 256 ports; distinct = distinct (type, length, sequence) tuples, every sequence performs at least one operation")
 	c.R.Assume("Equal between a nil and an empty MapMemory is not judged (the property speaks of initialised values)")
+	c.R.Assume("Put stores the bytes the caller passed as they were at the time of the call, also when the block is an overlapping view of the same DumbMemory (the trivial model takes its argument by value; this tree uses copy(), i.e. memmove)")
 }
